@@ -71,6 +71,16 @@ CHECKS = {
    "Histories of registrations, merges, reads, writes and calls over escaped/empty/array/deep pointers run on two registries (direct dispatch and through Router::with_registry under generated prefixes, alternating owned and borrowed dispatch); outcome class, full tree and callable invocation log (exactly once, exact body) compared with the model after every op; concurrent 4x4 request histories must be linearizable including the final tree.",
    "Only documented registration shapes are generated; non-canonical array indices are treated as unspecified; acknowledgement contents not pinned.",
    "DESIGN.md §4 C14"),
+ "C16": ("exploration",
+   "generated saturation scenarios against the in-process WebSocket server with gate-controlled handlers; exhaustive release orders x exit kinds for caps 1..3, random caps up to 16 and unlimited; saturation observed through the handlers' own signals",
+   "The in-handler gauge never exceeds the cap; a request at the cap is answered ResourceExhausted before any parked handler is released and its handler never runs; a notify at the cap never runs; inline requests are answered during saturation; every released handler's caller gets its own response (panic -> InternalError with its id); after all exits the full cap can be occupied again; the connection keeps answering; with and without a forwarding middleware.",
+   "10 s watchdog for 'immediately'; a fresh request that overtakes the slot release may be told to retry (documented as retryable) and is retried.",
+   "DESIGN.md §4 C16"),
+ "C17": ("exploration",
+   "size-targeted property-based generation (limit-2..limit+2, uniform, 2x) over seven outbound paths; byte-exact predicted frames as oracle; raw peer observes every message size",
+   "For limits 1 KiB..1 MiB (16 MiB thorough) and none, on inline response, off-reader response, handler-pushed notify, registry broadcast, proxy-forwarded response, client request and client notify: no observed binary message exceeds the limit, deliverable messages arrive byte-identical, an oversized response becomes an InternalError response with the same id, an oversized notify is dropped and reported through on_error, an oversized client message fails locally with MessageTooLarge, and a follow-up request on the same connection succeeds.",
+   "Limits >= 1 KiB (room for the error reply).",
+   "DESIGN.md §4 C17"),
  "C18": ("exploration",
    "model-based testing: bounded-exhaustive sequences (3 peers x 3 keys) + proptest histories against a map model, Wing-Gong linearizability search for concurrent histories",
    "After every step get/get_by/key_for/aliases_for/len/peers for every peer and key must equal the model; every broadcast must deliver exactly one notify (path, body, format) to each present peer and report one result per present peer, with refusing sinks; concurrent 4-thread histories plus a final full observation must be linearizable.",
